@@ -275,7 +275,8 @@ def model_loc(case, obs):
         if n_rest == 1:
             return "restTerm"
         if n_rest >= 2:
-            return "sysExit" if _has(pre, "atexit-unreg") else "restInt"
+            # back in the main frame of TaskRunner.run (or the clean-up already unregistered): about to sys.exit(0)
+            return "sysExit" if _has(pre, "atexit-unreg") or len(stack) <= 1 else "restInt"
         if body_ok:
             return "raised0" if outcome == "exit0" else "bodyDone"
         if kill.get("started"):
